@@ -260,10 +260,27 @@ def section_stage(ctx, rng, binp):
         text = ('[package]\nname = "p"\nversion = "0.1.0"\n' + before + indent + HDR + trailer + "\n" + "".join(b + "\n" for b in body) + after).replace("\n", eol)
         reqs.append({"op": "config", "cargo_toml": text, "files": []})
         metas.append((dflt, locs, bad_at))
+    # multi-line TOML strings before the section: a line of the string that *starts* with the header text (finding C19-multiline-string:
+    # the search is textual), and control cases where the mention is not at the start of a line of the string
+    head = '[package]\nname = "p"\nversion = "0.1.0"\n'
+    tail = "\n" + HDR + '\ndefault = "fr"\nlocales = ["en", "fr"]\n'
+    for q3 in ('"""', "'''"):
+        for inner, starts in ((HDR + "\nholds the locales", True), ("  " + HDR + " holds the locales\n", True),
+                              ("the locales are in " + HDR + "\n", False), ("see\n- " + HDR + "\nbelow", False)):
+            reqs.append({"op": "config", "cargo_toml": head + "description = " + q3 + "\n" + inner + q3 + "\n" + tail, "files": []})
+            metas.append(("fr", ["en", "fr"], "multiline-string" if starts else None))
     impl = run_lines_resilient(binp, reqs)
     model = lean_driver([{"op": "manifest.split", "text": q["cargo_toml"]} for q in reqs])
     for q, (dflt, locs, bad_at), r, m in zip(reqs, metas, impl, model):
         text = q["cargo_toml"]
+        if bad_at == "multiline-string":
+            ctx.seen({"toml": text}, nontrivial=True)
+            ctx.count("section-e2e:header-line-inside-multiline-string")
+            got = r.get("ok", {}).get("locales") if isinstance(r.get("ok"), dict) else None
+            if got != ["fr", "en"]:
+                report_violation(ctx, "config:rest-of-manifest-not-ignored:header-line-inside-multiline-string",
+                                 {"case": q, "expected_by_spec": {"default": "fr", "locales (default first)": ["fr", "en"]}, "implementation": r})
+            continue
         ctx.seen({"toml": text}, nontrivial=True)
         if "panic" in r or "crash" in r:
             report_violation(ctx, "config:panics", {"case": q, "impl": r})
@@ -295,6 +312,7 @@ def section_stage(ctx, rng, binp):
 def run(ctx):
     lean_check(ctx, "I18nVerif.Theorems.C19", "C19_")
     lean_check(ctx, "I18nVerif.Theorems.C19Section", "C19_")
+    lean_check(ctx, "I18nVerif.Theorems.C19SectionRest", "C19_")
     rng = ctx.rng
     binp = build_parser(ctx)
     if binp is None:
